@@ -19,6 +19,7 @@ EXPLANATION = (
     "(Karr affine-equality analysis with a ghost distance variable, shared with C08.1) and gamma==0 selects the single full step. "
     "C07.7: retH returns fftshift of the applied H. Not decided: rounding-level equality "
     "of compositions.")
+EXPLANATION += (" Second audit wave: C07.3 the dB-to-neper constant of FIBER's loss term equals 10/ln(10) to 1e-9 (the rounded 4.343 had been tolerated; it leaves the output power off by 1.5e-4 after 50 dB).")
 TRUSTED = ["numpy.fft conventions (fft/ifft inverse, fftfreq grid)", "electrical_signal.__call__/w as checked in C02", "CPython ast"]
 
 REAL = {"D", "alpha", "beta_2", "beta_3", "gamma", "length", "gv.fs", "phi_max"}
